@@ -1,0 +1,80 @@
+//go:build verif
+
+package spec
+
+// Verification hooks, compiled only with the `verif` build tag.
+//
+// The hook variables are meant to be set once, before any goroutine uses the
+// package: they are deliberately not synchronised, so that they add no
+// happens-before edge under the race detector.
+
+// VerifHooks holds the observers called from the hook sites.
+var VerifHooks struct {
+	// Step is called at the entry of expandSchema (site "expand"), just before a $ref
+	// is pushed on the parent refs by expandSchemaRef (site "follow") and just before
+	// deref recurses (site "hop").
+	Step func(site string, parentRefs []string, ref, basePath string)
+	// Resolved is called by resolveRef with the generic JSON it is about to convert.
+	Resolved func(ref, basePath string, usedInMemoryRoot bool, res interface{})
+	// Yield is called between critical sections of the cache and of the loader.
+	Yield func(site string)
+}
+
+func verifStep(site string, parentRefs []string, ref, basePath string) {
+	if VerifHooks.Step != nil {
+		VerifHooks.Step(site, parentRefs, ref, basePath)
+	}
+}
+
+func verifResolved(ref *Ref, basePath string, usedInMemoryRoot bool, res interface{}) {
+	if VerifHooks.Resolved != nil {
+		VerifHooks.Resolved(ref.String(), basePath, usedInMemoryRoot, res)
+	}
+}
+
+func verifYield(site string) {
+	if VerifHooks.Yield != nil {
+		VerifHooks.Yield(site)
+	}
+}
+
+// VerifDefaultCacheKeys lists the keys of the package-level cache (nil before it is initialised).
+func VerifDefaultCacheKeys() []string {
+	if resCache == nil {
+		return nil
+	}
+	resCache.lock.RLock()
+	defer resCache.lock.RUnlock()
+	keys := make([]string, 0, len(resCache.store))
+	for k := range resCache.store {
+		keys = append(keys, k)
+	}
+	return keys
+}
+
+// VerifDefaultCacheEntry returns an entry of the package-level cache.
+func VerifDefaultCacheEntry(key string) (interface{}, bool) {
+	if resCache == nil {
+		return nil, false
+	}
+	resCache.lock.RLock()
+	defer resCache.lock.RUnlock()
+	v, ok := resCache.store[key]
+	return v, ok
+}
+
+// VerifNewDefaultCache returns a fresh instance of the cache implementation used by default.
+func VerifNewDefaultCache() ResolutionCache {
+	return cacheOrDefault(nil)
+}
+
+// VerifNormalizeBase exposes normalizeBase.
+func VerifNormalizeBase(in string) string { return normalizeBase(in) }
+
+// VerifNormalizeURI exposes normalizeURI.
+func VerifNormalizeURI(refPath, base string) string { return normalizeURI(refPath, base) }
+
+// VerifDenormalizeRef exposes denormalizeRef.
+func VerifDenormalizeRef(ref *Ref, originalRelativeBase, id string) Ref {
+	return denormalizeRef(ref, originalRelativeBase, id)
+}
